@@ -1045,3 +1045,8 @@ Definition agg_check (segs : list (N * N * N)) (impl_N impl_n impl_T : N) : bool
   N.eqb (sumN (map (fun x => fst (fst x)) segs)) impl_N &&
   N.eqb (sumN (map (fun x => snd (fst x)) segs)) impl_n &&
   N.eqb (sumN (map snd segs)) impl_T.
+
+(* F42 classifier: explain() was asked about document `doc` of a segment in which some node of the query whose
+   Weight::explain seeks a fresh scorer unconditionally (phrase, const-score, boolean, disjunction-max) has its first
+   match AFTER `doc`: the fresh scorer stands beyond the target and seek(target) is called with target < doc(). *)
+Definition known_f42 (doc : N) (first_matches : list N) : bool := existsb (fun f => (doc <? f)%N) first_matches.
